@@ -788,6 +788,8 @@ class Vector3d(Object3d):
         """
         fs = symmetry.fundamental_sector
         v = deepcopy(self)
+        # Floats, as vectors are assigned in-place below
+        v._data = v._data.astype(np.float64)
 
         center = fs.center
         if center.size == 0:
